@@ -164,6 +164,41 @@ def handle (op : String) (j : Json) : Except String Json := do
     let p ← parserOf ((optStr j "parser").getD "none")
     let tbl ← tableOf (← j.getObjVal? "parses")
     pure (evJson (multiStepNextStep tbl p s))
+  | "genloop" =>
+    -- the `generate_events` loop driven by a step TABLE keyed by len(events) - base (the real `_compute_next_steps` is
+    -- replaced by the same table); outcome "raise" or a list of event types
+    let base := nat j "base" 1
+    let outcomeOf : Json → Except String (Except Unit (List Ev)) := fun o =>
+      match o with
+      | .str _ => pure (.error ())
+      | .arr a => do
+        let evs ← a.toList.mapM fun e => do
+          let t ← e.getStr?
+          pure (if t == "Listen" then Ev.listen else if t == "hide_prev_turn" then Ev.hidePrevTurn else Ev.step 0)
+        pure (.ok evs)
+      | _ => throw "bad outcome"
+    let dflt ← outcomeOf (← j.getObjVal? "default")
+    let rows ← (← (← j.getObjVal? "table").getArr?).toList.mapM fun r => do
+      let p ← r.getArr?
+      if h : p.size = 2 then do
+        let k ← p[0].getNat?; let o ← outcomeOf p[1]; pure (k, o)
+      else throw "bad table row"
+    let step : List Ev → Except Unit (List Ev) := fun events =>
+      match lastEv events with
+      | some .hidePrevTurn => .ok [.listen]
+      | _ => match rows.find? (fun r => r.1 == events.length - base) with
+        | some r => r.2
+        | none => dflt
+    let stepR : List Ev → List Ev := fun events => match step events with | .ok l => l | .error _ => internalErrorEvents
+    let init := List.replicate base (Ev.step 1)
+    let tyOf : Ev → String := fun e => match e with
+      | .listen => "Listen" | .hidePrevTurn => "hide_prev_turn" | .botIntent _ => "BotIntent" | _ => "X"
+    let evs := fun (l : List Ev) => Json.arr (l.map fun e => Json.str (tyOf e)).toArray
+    let asIs := match generateEvents step init with
+      | .ok l => Json.mkObj [("res", "ok"), ("events", evs l)]
+      | .error .tooManyEvents => Json.mkObj [("res", "too_many")]
+      | .error (.raised _) => Json.mkObj [("res", "raised")]
+    pure (Json.mkObj [("as_is", asIs), ("repaired", Json.mkObj [("res", "ok"), ("events", evs (genLoopR stepR 102 init []))])])
   | "msflow" =>
     let fid ← str j "flow_id"
     let body ← str j "body"
